@@ -1226,6 +1226,11 @@ func (r *Runner) loopStmtsBroken(ctx context.Context, stmts []*syntax.Stmt) bool
 		r.stmt(ctx, stmt)
 		if r.contnEnclosing > 0 {
 			r.contnEnclosing--
+			if !oldInLoop {
+				// A count larger than the number of enclosing loops,
+				// as in "continue 5" inside two loops, resumes the outermost loop.
+				r.contnEnclosing = 0
+			}
 			return r.contnEnclosing > 0
 		}
 		if r.breakEnclosing > 0 {
